@@ -288,11 +288,18 @@ def c08_impl(case):
             concrete = isinstance(inst, S)
         except Exception:
             concrete = False
-        try:
-            _ = (x == 1)
-            rejected = False
-        except AttributeError:
-            rejected = True
+        # every symbolic operator of a variable (CanBehaveLikeAVariable): comparison, attribute access (an attribute that
+        # WAS accessed inside a block before, and one that never was), indexing, calling, membership - all rejected outside
+        # a block, none rejected inside one (2 = some are and some are not)
+        probes = (lambda: x == 1, lambda: x != 1, lambda: x < 1, lambda: x >= 1, lambda: x.a, lambda: x.never_seen,
+                  lambda: x[0], lambda: x(), lambda: 1 in x, lambda: x.a.real)
+        n_rej = 0
+        for pr in probes:
+            try:
+                pr()
+            except AttributeError:
+                n_rej += 1
+        rejected = 1 if n_rej == len(probes) else (0 if n_rej == 0 else 2)
         obs.append('%d%d%d%d%d' % (in_symbolic_mode(), in_symbolic_mode(EQLMode.Rule), concrete, rejected,
                                    len(SymbolicExpression._symbolic_expression_stack_) - base_stack))
 
@@ -458,7 +465,12 @@ def c14_gen(rng, cid, tier):
         else:
             ops.append(('q', c))
     ops.append(('q', rng.randrange(n_cls)))
-    return {'id': cid, 'classes': classes, 'ops': ops}
+    case = {'id': cid, 'classes': classes, 'ops': ops}
+    if rng.random() < 0.25:
+        # SIZED classes: some root classes define __len__ (= the field a), so instances constructed with defaults / a=0 are
+        # FALSY objects (an empty container); an instance is an instance whatever its truth value
+        case['sized'] = [c for c, parent, _, _ in classes if parent is None and rng.random() < 0.7]
+    return case
 
 
 def c14_sexp(case):
@@ -490,16 +502,17 @@ def c14_impl(case):
     for c, parent, decorated, style in case['classes']:
         bases = (object,) if parent is None else tuple(built[q] for q in parent) if isinstance(parent, (tuple, list)) \
             else (built[parent],)
+        extra = {'__len__': (lambda self: self.a)} if c in (case.get('sized') or ()) else {}
         if style == 'handwritten':
             def __init__(self, a=0):
                 counter['inits'] += 1
                 self.a = a
-            cls = type(f'K{c}', bases, {'__init__': __init__})
+            cls = type(f'K{c}', bases, {'__init__': __init__, **extra})
         else:
             def __post_init__(self):
                 counter['inits'] += 1
             cls = dataclass(eq=False)(type(f'K{c}', bases, {'__annotations__': {'a': int}, 'a': 0,
-                                                           '__post_init__': __post_init__}))
+                                                           '__post_init__': __post_init__, **extra}))
         if decorated:
             cls = symbol(cls)
         built[c] = cls
@@ -602,6 +615,8 @@ def c14(report, rng, tier, findings):
             model = ['']
         for op in case['ops']:
             report.count('op_' + op[0])
+        if case.get('sized'):
+            report.count('sized_classes_with_falsy_instances')
         if any(x for x in model):
             report.nontrivial.add(c14_sexp({**case, 'id': 'x'}))
         report.add_sample(c14_sexp(case))
@@ -633,6 +648,7 @@ def c07_impl(case):
     except Exception as e:
         out['spec_exc'] = str(e)
         return out
+    held = []
     try:
         b = impl.Built(case)
         log = []
@@ -662,13 +678,19 @@ def c07_impl(case):
                 except StopIteration:
                     pass
             at_last = len(log)
-            it.close()
+            if case.get('hold') and k > 0:
+                held.append(it)      # a partial evaluation whose iterator is NOT closed: it stays suspended while the
+                                     # evaluations that follow run (never resumed)
+            else:
+                it.close()
             steps.append({'created_pulls': created, 'res': res, 'per': per, 'after': len(log),
                           'at_last': at_last})
         out['steps'] = steps
     except Exception as e:
         out['exc'] = f'{type(e).__name__}: {e}'
     finally:
+        for it_ in held:
+            it_.close()
         impl.reset_library_state()
     return out
 
@@ -698,6 +720,11 @@ def c07(report, rng, tier, findings):
         case['vars'] = [(vid, cls, raw)]
         nh = rng.randint(1, 5 if tier == 'quick' else 8)
         case['hist'] = [rng.choice((0, 1, 1, 2, 3, -1)) for _ in range(nh)]
+        # every third case: the iterators of its partial evaluations are NOT closed (they stay suspended while the later
+        # evaluations run; never resumed) - chosen by position, not by the generator's random stream
+        case['hold'] = i % 3 == 0
+        if case['hold'] and any(k > 0 for k in case['hist'][:-1]):
+            report.count('partial_evaluations_left_suspended')
         cases.append(case)
     impl_res = pmap(c07_impl, cases)
     good = [(c, r) for c, r in zip(cases, impl_res) if 'spec_exc' not in r]
